@@ -3,12 +3,12 @@ CONSTANTS
   ArgsOf <- MCArgs
   InitHeaps <- MCInit2
   MaxDepth = 1
-  Breaks <- BreaksQ
-  Degs <- DegsQ
-  MaxNpts = 5
-  Acts = {"CvSplit"}
-  PtKinds = {"gen"}
-  WtKinds = {"none", "gen"}
+  Breaks <- BreaksT
+  Degs <- DegsT
+  MaxNpts = 7
+  Acts = {"CvEval"}
+  PtKinds = {"gen", "unit"}
+  WtKinds = {"none", "const", "gen", "gen2"}
   ExtraNodes <- Extra0
   NodeSize = 2
   Scenario = "single"
@@ -17,7 +17,7 @@ CONSTANTS
   OtherMaxNpts = 4
 INVARIANT WellFormed
 PROPERTY FailedIsNoOp
-PROPERTY SplitRestricts
+
 ACTION_CONSTRAINT Log
 VIEW View
 CHECK_DEADLOCK FALSE
